@@ -173,9 +173,13 @@ def planar_body(sx, S):
     F = S.F[0]
     n = len(F)
     orient = []
+    # convex and counter-clockwise: EVERY triple of vertices taken in cyclic order turns left (consecutive triples alone would
+    # also admit star polygons that wind twice)
     for i in range(n):
-        a, b, c = S.Q[F[i]], S.Q[F[(i + 1) % n]], S.Q[F[(i + 2) % n]]
-        orient.append((b[0] - a[0]) * (c[1] - a[1]) - (b[1] - a[1]) * (c[0] - a[0]))
+        for j in range(i + 1, n):
+            for k in range(j + 1, n):
+                a, b, c = S.Q[F[i]], S.Q[F[j]], S.Q[F[k]]
+                orient.append((b[0] - a[0]) * (c[1] - a[1]) - (b[1] - a[1]) * (c[0] - a[0]))
     sx.assume(symx.And(*[o > 0 for o in orient]))
     shoelace = sum(S.Q[F[i]][0] * S.Q[F[(i + 1) % n]][1] - S.Q[F[(i + 1) % n]][0] * S.Q[F[i]][1] for i in range(n)) / 2
     Ar = A.face_area(S.mesh, persistent=False)
